@@ -40,9 +40,10 @@ from fsim import stubs
 from fsim.world import World, stable_hash
 from machines.build import BUILD_STUBS
 
-SER_FNS = ['n0', 'n1', 'N2', 'N3', 'n6']
+SER_FNS = ['n0', 'n1', 'N2', 'N3', 'n6', 'CamelNode', 'camel_node']
 NAMES = {'n0': ['x', 'y', 'z'], 'n1': ['y', 'extra'], 'N2': ['x', 'k'],
-         'N3': ['x', 'y'], 'n6': ['x', 'y', 'k']}
+         'N3': ['x', 'y'], 'n6': ['x', 'y', 'k'], 'CamelNode': ['x'],
+         'camel_node': ['x']}
 TAGS = ['T0', 'T1', 'U0']
 # dotted stdlib modules nothing here ever imports: if one of THEIR parents shows
 # up in the import system during a load that the policy refused, something
@@ -309,9 +310,21 @@ def gen_case(world, tier, prop):
   denies = [{'doc': vi, 'seed': frng.randrange(10 ** 9),
              'stage': frng.choice(['import', 'value'])}
             for vi in range(len(values)) if frng.random() < 0.5]
-  return {'values': values, 'damages': damages, 'denies': denies,
+  case = {'values': values, 'damages': damages, 'denies': denies,
           'reader': frng.random() < (0.5 if big else 0.12),
           'reader_hashseed': str(frng.choice([5, 17, 123456, 999]))}
+  crng = world.stream('conc')
+  if crng.random() < 0.35:
+    # two loads under DIFFERENT policies overlap in two threads
+    case['conc'] = {'a': crng.randrange(len(values)), 'b': crng.randrange(len(values)),
+                    'seed': crng.randrange(10 ** 9),
+                    'stage': crng.choice(['import', 'value']),
+                    'policy': crng.choice([{'kind': 'random', 'p': 0.05},
+                                           {'kind': 'random', 'p': 0.3},
+                                           {'kind': 'pause', 'q': 0.6},
+                                           {'kind': 'pct', 'd': 3, 'horizon': 4000}]),
+                    'sched_seed': world.seed}
+  return case
 
 
 # --------------------------------------------------------------------------
@@ -328,8 +341,11 @@ class RecordingPolicy(serialization.PyrefPolicy):
     self.approved_values = {}       # id -> value answered True
     self.refused_values = {}
     self.default = serialization.DefaultPyrefPolicy()
+    self.sched = None   # concurrent arm: the user's callbacks are pause points
 
   def allows_import(self, module, symbol):
+    if self.sched is not None:
+      self.sched.pause(1)
     ok = True
     if self.deny and self.deny_stage == 'import' and (module, symbol) == self.deny:
       ok = False
@@ -343,6 +359,8 @@ class RecordingPolicy(serialization.PyrefPolicy):
     return ok
 
   def allows_value(self, value):
+    if self.sched is not None:
+      self.sched.pause(2)
     ok = self.default.allows_value(value)
     if self.deny and self.deny_stage == 'value':
       try:
@@ -787,6 +805,13 @@ def run(case):
                          f'policy refused {target} ({dn["stage"]} stage) but the loaded '
                          'value contains it', arm='policy-no'))
           return res
+    # ---- two loads under different policies overlap in two threads --------
+    conc = case.get('conc')
+    if conc and conc['a'] in docs and conc['b'] in docs:
+      v = concurrent_loads(conc, docs[conc['a']], docs[conc['b']], res, real_importlib)
+      if v:
+        viols.append(v)
+        return res
     # ---- damaged documents ------------------------------------------------
     by_doc = {}
     for dmg in case['damages']:
@@ -853,6 +878,88 @@ def run(case):
     serialization.importlib = real_importlib
   res['nontrivial'] = bool(docs)
   return res
+
+
+class ThreadShim:
+  """The import seam while several simulated threads load: each thread's imports
+  are checked against that thread's own policy."""
+
+  def __init__(self, shims, sched):
+    self.shims, self.sched = shims, sched
+
+  def __getattr__(self, name):
+    return getattr(importlib, name)
+
+  def import_module(self, name):
+    return self.shims[self.sched.thread_id()].import_module(name)
+
+
+def concurrent_loads(conc, doc_a, doc_b, res, real_importlib):
+  """Thread 0 loads doc_a under a policy that refuses one of its symbols (and is
+  otherwise permissive); thread 1 loads doc_b under an allow-all policy.  Each
+  load must be gated by ITS policy whatever the interleaving."""
+  import random
+  from fsim import sched as sched_lib
+  from fsim.world import World
+  from machines.threads import FIDDLE_SRC
+  sites = pyref_sites(json.loads(doc_a))
+  if not sites:
+    return None
+  r = random.Random(conc['seed'])
+  node = S.get_path(json.loads(doc_a), r.choice(sites))
+  target = (node['module'], node['name'])
+  pols = [RecordingPolicy(restrictive=False, deny=target, deny_stage=conc['stage']),
+          RecordingPolicy(restrictive=False)]
+  rng = World(conc['sched_seed']).stream('sched')
+  sc = sched_lib.Sched(sched_lib.make_policy(conc['policy'], rng, 2), [FIDDLE_SRC],
+                       step_cap=2_000_000)
+  shims = [ImportShim(p) for p in pols]
+  out = [None, None]
+
+  def loader(t, doc):
+    def body():
+      try:
+        out[t] = ('ok', serialization.load_json(doc, pyref_policy=pols[t]))
+      except Exception as e:  # pylint: disable=broad-except
+        out[t] = ('raised', e)
+    return body
+  for p_ in pols:
+    p_.sched = sc
+  serialization.importlib = ThreadShim(shims, sc)
+  try:
+    sc.run([loader(0, doc_a), loader(1, doc_b)])
+  finally:
+    serialization.importlib = real_importlib
+    for p_ in pols:
+      p_.sched = None
+  res['faults']['preempt'] = res['faults'].get('preempt', 0) + sc.switches
+  res['probes']['concurrent_load_pairs'] = res['probes'].get('concurrent_load_pairs', 0) + 1
+  res['steps'] += sc.steps
+  res['sched_hash'] = sc.sched_hash()
+  for t in (0, 1):
+    kind, val = out[t]
+    back, raised = (val, None) if kind == 'ok' else (None, val)
+    what = (f'thread {t} of two overlapping loads (policy of thread 0 refuses {target} '
+            f'at {conc["stage"]} stage, thread 1 allows all)')
+    v = check_policy_monitors(pols[t], shims[t], back, raised, what, arm='concurrent')
+    if v:
+      return v
+    if t == 1 and raised is not None:
+      return V('concurrent-load-raised',
+               f'{what}: the allow-all load raised {type(raised).__name__}: '
+               + C.norm_text(str(raised))[:200], arm='concurrent')
+    if t == 0 and raised is None:
+      try:
+        denied = _resolve(*target)
+      except Exception:  # pylint: disable=broad-except
+        denied = None
+      if denied is not None and any(
+          s_ is denied or (isinstance(s_, types.MethodType) and s_ == denied)
+          for s_ in symbols_reachable(back)):
+        return V('denied-symbol-returned',
+                 f'{what}: the loaded value of thread 0 contains the refused symbol',
+                 arm='concurrent')
+  return None
 
 
 def check_policy_monitors(pol, shim, back, raised, what, arm):
